@@ -199,6 +199,12 @@ def configs_for(tier, seed):
                  for c in (None, 1, 2, 3, -1, -2, -3) if len(range(*slice(a, b, c).indices(4))) > 0]
         for q in range(0, len(allsl), 60):
             add("tdl", "three013" if q % 120 else "ties", (0, 0), ops=allsl[q:q + 60], variant=q, maxpos=4, ts="dy")
+        # every slice(start, stop, step) over fft 8 with start/stop in {None, 0..8} (exact in Q(zeta_8))
+        vals8 = [None] + list(range(0, 9))
+        allsl8 = [op("F", 1 + (b is None), 1, 8, "slice", sl(a, b, c)) for a in vals8 for b in vals8
+                  for c in (None, 1, 2, 3, 5, -1, -2, -3) if len(range(*slice(a, b, c).indices(8))) > 0]
+        for q in range(0, len(allsl8), 60):
+            add("tdl", "deep" if q % 120 else "four", (0, 0), ops=allsl8[q:q + 60], variant=q, maxpos=8, ts="dy")
         allsl2 = [op("F", 1, 2, 2, "slice", sl(a, b, c)) for a in (None, -2, -1, 0, 1, 2) for b in (None, -3, -1, 0, 1, 2)
                   for c in (None, 1, 2, -1, -2) if len(range(*slice(a, b, c).indices(2))) > 0]
         add("su", "two01", (1, 2), pls=su_pls, ops=allsl2 + [op("PL", n=2)], variant=5, maxpos=4)
@@ -798,6 +804,19 @@ def run(ctx):
     from . import c03_real, c03_trace
     c03_real.run(ctx, jobs)
     c03_trace.run(ctx)
+    # report order: behaviours that match no listed deviation first, then one example per deviation, then the rest
+    import re
+    plain, first, rest, seen_ids = [], [], [], set()
+    for v in ctx.violations:
+        m = re.match(r"\[(\w+)\]", v["what"])
+        if not m:
+            plain.append(v)
+        elif m.group(1) not in seen_ids:
+            seen_ids.add(m.group(1))
+            first.append(v)
+        else:
+            rest.append(v)
+    ctx.violations[:] = plain + first + rest
 
 
 def replay(ctx, data):
